@@ -52,6 +52,12 @@ func derivesFrom(v ssa.Value, pred func(ssa.Value) bool, depth int) bool {
 		}
 	case *ssa.Convert:
 		return derivesFrom(x.X, pred, depth+1)
+	case *ssa.Extract:
+		return derivesFrom(x.Tuple, pred, depth+1)
+	case *ssa.MakeInterface:
+		return derivesFrom(x.X, pred, depth+1)
+	case *ssa.ChangeInterface:
+		return derivesFrom(x.X, pred, depth+1)
 	case *ssa.Slice:
 		return derivesFrom(x.X, pred, depth+1)
 	}
